@@ -48,7 +48,9 @@ Bodies == {"bare", "empty_parens", "ident", "two_idents", "unknown_ident", "int_
            \* list entries with no comma between them
            "types_nocomma", "forms_nocomma",
            \* parameters that are paths, not single identifiers: several segments, a leading `::`, a call on a path
-           "path_global", "path_call", "path_generic"}
+           "path_global", "path_call", "path_generic",
+           \* the legacy `types(..)` list inside each of the reference-kind wrappers
+           "legacy_in_owned", "legacy_in_ref", "legacy_in_ref_mut"}
 
 \* a position only exists on shapes that have it
 HasPosition(shape, pos) ==
